@@ -456,7 +456,7 @@ def with_near_twin(rng, f):
     if not consts:
         return f
     c = rng.choice(consts)
-    d1, d2 = rng.sample([0.0, 1e-7, 2e-7, 4e-7], 2)
+    d1, d2 = rng.sample(rng.choice([[0.0, 1e-7, 2e-7, 4e-7], [0.0, 1e-7, 2e-7, 4e-7], [0.0, 1e-11, 2e-11, 4e-11], [0.0, 1e-13, 3e-13, 5e-13]]), 2)
     f1 = map_formula(f, lambda h: C(c[2] + d1) if h == c else h)
     f2 = map_formula(f, lambda h: C(c[2] + d2) if h == c else h)
     return N(rng.choice(['and', 'or', 'implies']), f1, f2)
